@@ -682,6 +682,41 @@ theorem proposer_path_independent_on_reachable_witness :
       some { vals := [v 3 10 (-2), v 1 2 9, v 4 1 (-5)], proposer := some 3, total := 13 } := by
   refine ⟨?_, ?_⟩ <;> decide
 
+/-! ## (7) the block step (`cstate.updateState`) -/
+
+/-- **block_step_is_update_then_round**: the NextValidators computed for a block are the change set
+applied to the current set and *then* one round of rotation; an invalid change set (exactly the
+cases of `update_rejects_iff`) rejects the block step as a whole, and a block without changes is
+one round of rotation of the unchanged set. -/
+theorem block_step_is_update_then_round (vs : ValSet) (cs : List Validator) :
+    (∀ e, updateWithChangeSet vs cs true = .error e → blockStep vs cs = .error e) ∧
+    (∀ vs', updateWithChangeSet vs cs true = .ok vs' → blockStep vs cs = increment vs' 1) ∧
+    blockStep vs [] = increment vs 1 := by
+  refine ⟨?_, ?_, ?_⟩
+  · intro e h; simp only [blockStep, h]
+  · intro vs' h; simp only [blockStep, h]
+  · simp only [blockStep, updateWithChangeSet, List.isEmpty_nil, if_true]
+
+/-- the other order (one round first, then the change set): what a block step must NOT be -/
+def blockStepRoundFirst (vs : ValSet) (cs : List Validator) : Except Err ValSet :=
+  match increment vs 1 with
+  | .error e => .error e
+  | .ok vs' => updateWithChangeSet vs' cs true
+
+/-- **block_step_order_matters**: on the set (10, 20, 30, 40) after genesis and one round, the
+block that removes the validator next in line and adds a newcomer gives, with the round taken
+first, a set whose designated proposer is the removed validator (not a member) and whose newcomer
+has not taken part in the round; the block step of the model designates a member. -/
+theorem block_step_order_matters :
+    let start := andThen (newValidatorSet [v 1 10 0, v 2 20 0, v 3 30 0, v 4 40 0]) (increment · 1)
+    let cs := [v 2 0 0, v 9 25 0]
+    (okOf (andThen start (blockStep · cs))).map (fun s => s.proposer.map (fun a => (findVal s.vals a).isSome))
+        = some (some true) ∧
+    (okOf (andThen start (blockStepRoundFirst · cs))).map (fun s => s.proposer.map (fun a => (findVal s.vals a).isSome))
+        = some (some false) ∧
+    okOf (andThen start (blockStep · cs)) ≠ okOf (andThen start (blockStepRoundFirst · cs)) := by
+  refine ⟨?_, ?_, ?_⟩ <;> decide
+
 /-! ## non-vacuity and the F1 witness -/
 
 
